@@ -715,6 +715,48 @@ Qed.
 
 End Complete.
 
+(* ---------- sanity check by direct evaluation (does not use the theorems or Hcrc) ---------- *)
+Module Example.
+Definition construct (p:bytes) (_:Z) : outcome bytes :=
+  if Nat.ltb (length p) 2 then Lib EMessage else Ok p.
+Definition nmea := [[x24; x47]].
+Definition items : list item :=
+  [ INoise [x00; x41]; IFrame [x3e; xd0; x00]; IFrame []; INmea x47 [x50; x0d];
+    IUbx x01 x02 [x07] [x0a; x0b]; IDamaged x00 x02 [x01; x02; x03; x04; x05];
+    IFrame [x43; x50; x00; x01] ].
+Definition cf q := {| validate := 1; quitonerror := q; labelmsm := 1; parsed := true |}.
+
+Lemma items_wf : Forall (wf_item nmea) items.
+Proof.
+  unfold items.
+  apply Forall_cons. { repeat constructor; discriminate. }
+  apply Forall_cons. { cbn [wf_item length]. lia. }
+  apply Forall_cons. { cbn [wf_item length]. lia. }
+  apply Forall_cons. { split; [now left|]. intros [H|[H|[]]]; discriminate. }
+  apply Forall_cons. { split; [vm_compute; reflexivity|reflexivity]. }
+  apply Forall_cons. { split; [vm_compute; reflexivity|]. split; [reflexivity|]. vm_compute. discriminate. }
+  apply Forall_cons. { cbn [wf_item length]. lia. }
+  apply Forall_nil.
+Qed.
+
+Lemma iterate_log :
+  fst (iterate file_ops construct nmea [xb5; x62] 1 2 1 (cf 1) 100 10 (file_stream (stream_of items)))
+  = trace construct 1 1 [] items.
+Proof. vm_compute. reflexivity. Qed.
+
+Lemma iterate_log_value :
+  trace construct 1 1 [] items =
+  [ ([], RYield (frame [x3e; xd0; x00]) (Some [x3e; xd0; x00]));
+    ([EMessage; EParse], RYield (frame [x43; x50; x00; x01]) (Some [x43; x50; x00; x01]));
+    ([], REnd) ].
+Proof. vm_compute. reflexivity. Qed.
+
+Lemma reads_raise :
+  fst (run_reads file_ops construct nmea [xb5; x62] 1 2 1 (cf 2) 100 5 (file_stream (stream_of items)))
+  = map (fun it => ([], result_of construct 1 it)) (filter is_rtcm items) ++ [([], REnd)].
+Proof. vm_compute. reflexivity. Qed.
+End Example.
+
 Print Assumptions iterate_trace.
 Print Assumptions C02_complete.
 Print Assumptions zero_length_frame_skipped.
